@@ -7,7 +7,8 @@ namespace OPM.SaveConc
 
 /-- the repaired system: lock from check to commit, version continues across re-registration; with or without the
 additional fast-path check in front of the lock -/
-def fixed (precheck : Bool := false) : Cfg := { locked := true, resetOnRegister := false, precheck := precheck }
+def fixed (precheck : Bool := false) : Cfg :=
+  { locked := true, resetOnRegister := false, precheck := precheck, methodMsgSetsVersion := false }
 
 /-- Invariant (relative to the initial version `v0`). -/
 structure Good (v0 : Nat) (s : State) : Prop where
@@ -269,5 +270,13 @@ theorem good_step {v0 : Nat} {p : Bool} {s s' : State} {e : Ev} (g : Good v0 s) 
       · simp only [Bool.false_eq_true, if_false]
         have := g.count
         omega
+
+  | engineMethod v content =>
+    simp only [step, fixed] at h
+    split at h
+    · cases h
+    · cases h
+      exact { one := g.one, cur := g.cur, away := g.away, free := g.free, old := g.old, nodup := g.nodup,
+              count := g.count }
 
 end OPM.SaveConc
